@@ -59,6 +59,50 @@ def trait_literal(run, F):
                                   '%s declares sends_done = false but its implementation (%s) contains a set_done completion' % (r['qname'].replace('unifex::', ''), fam))
 
 
+def _never_senders(F):
+    out = []
+    for r in F.recs:
+        for fl in r['fields']:
+            if fl.get('static') and fl['name'] == 'blocking' and (fl.get('init_text') or '').strip() == 'blocking_kind::never':
+                ops = set()
+                for f in F.by_record.get(r['qname'], []):
+                    if f['name'] in ('connect', 'tag_invoke'):
+                        for b, i, e in events(f):
+                            if e['k'] == 'construct':
+                                m = re.match(r'(?:typename\s+)?([A-Za-z_]\w*)', e.get('type') or '')
+                                if m and m.group(1) not in ('unifex', 'void', 'instruction_ptr'): ops.add(m.group(1))
+                out.append((r, fl, ops))
+    return out
+
+
+@rule('R-TRAIT-NEVER', ['C11', 'C06', 'C07'], floor=5)
+def trait_never(run, F):
+    """a sender declaring `blocking = blocking_kind::never` (the schedule senders of manual_event_loop, static_thread_pool, timed_single_thread_context, thread_unsafe_event_loop, io_uring accept) has an operation whose start() reaches no completion of its receiver (family-internal callees inlined): the completion is always handed to the context, never delivered inline on the caller's thread, not even on an already-stopped fast path"""
+    n = 0
+    for r, fl, ops in _never_senders(F):
+        fam = r['_family']
+        starts = []
+        for g in F.by_family.get(fam, []):
+            if not g.get('blocks') or g.get('lambda'): continue
+            if not (g['name'] == 'start' or (g['name'] == 'tag_invoke' and g.get('params') and re.search(r'tag_t<.*start>|_start', g['params'][0]['type']))): continue
+            rec = re.sub(r'<[^<>]*>', '', g.get('record') or g['qname'])
+            if ops and not any(re.search(r'\b' + re.escape(o) + r'\b', rec) for o in ops): continue
+            starts.append(g)
+        nested = [g for g in starts if (g.get('record') or '').startswith(r['qname'] + '::')]
+        if nested: starts = nested
+        for g in starts:
+            try:
+                S = Super(F, g, [fam])
+            except TooBig:
+                run.broke('supergraph of %s too big' % g['qname']); continue
+            n += 1
+            run.inst('%s:%s %s' % (g['file'], g['line'], g['qname']), 'start() of a blocking_kind::never sender (%s) reaches no completion' % r['qname'].split('::')[-1], key=(r['qname'], g['qname']))
+            for node, ch, p in S.terminals():
+                run.violation(g['qname'], 'never-but-inline:' + ch, S.where(node),
+                              '%s declares blocking_kind::never, but start() of its operation can deliver set_%s inline (on the thread calling start(), before start() returns): the trait is unsound and the completion does not run on the context' % (r['qname'].replace('unifex::', ''), ch), path=S.path_to(node))
+    if n == 0: raise Broken('no start() of a blocking_kind::never sender found')
+
+
 @rule('R-AFFINE-FWD', ['C11', 'C16', 'C15'], floor=2)
 def affine_forwarder(run, F):
     """operations that promise scheduler affinity by means of a completion_forwarder member (async_pass call/throw/accept, v2 async_mutex lock, v2 event wait) deliver their value only through it: `forward_set_value()` is invoked by the forwarder's receiver alone, never directly from resume_/stop paths that may run on a foreign thread"""
